@@ -397,8 +397,7 @@ class Grid(object):
                       + f" data has {ncols}, but expects {self.ncols}."
             raise ValueError(errmess)
 
-        self._data = np.clip(_value, self.mindata,
-                             self.maxdata).astype(self.dtype)
+        self._data = self._clipdata(_value).astype(self.dtype)
 
     @property
     def nodata(self):
@@ -455,6 +454,19 @@ class Grid(object):
 
         self._data = np.minimum(self._data, self._maxdata)
 
+    def _clipdata(self, value):
+        """ Apply mindata and maxdata to an array. An infinite bound
+        (the default) is no bound, and a finite one has the grid dtype:
+        integers are never rounded through float64.
+        """
+        if np.isfinite(self._mindata):
+            value = np.maximum(value, self._mindata)
+
+        if np.isfinite(self._maxdata):
+            value = np.minimum(value, self._maxdata)
+
+        return value
+
     def set_parent_attributes(self, grid, row_start, row_end,
                               col_start, col_end):
         """ Set parent attributes when clipping a grid """
@@ -506,8 +518,8 @@ class Grid(object):
                       + f" expecting {nval}."
             raise ValueError(errmess)
 
-        self._data = np.clip(data.reshape((self.nrows, self.ncols)),
-                             self.mindata, self.maxdata).astype(self.dtype)
+        data = data.reshape((self.nrows, self.ncols))
+        self._data = self._clipdata(data).astype(self.dtype)
 
     def to_dict(self):
         """ Export grid metadata to json """
